@@ -181,13 +181,13 @@ PROPS = {
     ),
     "C15": dict(
         harness="h_life", sources=LIFE, level="exploration",
-        variants=dict(quick=[V("asan", 12, 0.5), V("opt", 4)], thorough=[V("asan", 12, 0.5), V("opt", 4), V("align", 4, 0.5)]),
+        variants=dict(quick=[V("asan", 12, 0.5), V("optavx", 4)], thorough=[V("asan", 12, 0.5), V("optavx", 4), V("opt", 4), V("align", 4, 0.5)]),
         rule="the C08 interpreter with the wide catalogue: histories of 20-120 operations adding rotations (both forms), RotateToB0/B1, UTransform (both), UDaggerTransform, WeightedRotation (both), "
              "Real/Imag/Transpose, conversions to and from GSL matrices and component lists, GetEigenSystem, factories, evolution tables and both filters on exact-size heap tables, stream output, "
              "16 kinds of calls that end in a library exception, and solver objects (construct, grid, evolve, move-construct, move-assign onto a used solver, query incl. rejected queries, re-init, "
              "destroy). Oracles are the generic ones only: ASan/UBSan silence, ledger invariants after every step, ownership-flag invariants, ledger empty after final destruction and cache drain, "
              "LeakSanitizer at exit (GSL's malloc'ed objects).",
-        floors=dict(quick={"steps": 50000, "op.producer": 5000, "op.inplace": 1000, "op.tables": 1000, "op.throwing": 1000, "op.solver": 1000, "exceptions.library": 800, "exceptions.solver": 2000, "op.cache_overflow_burst": 500},
+        floors=dict(quick={"steps": 50000, "op.producer": 5000, "op.inplace": 1000, "op.tables": 500, "op.throwing": 1000, "op.solver": 1000, "exceptions.library": 800, "exceptions.solver": 2000, "op.cache_overflow_burst": 500, "op.aligned_factories": 500},
                     thorough={"steps": 2000000}),
         assumptions=["red-zone sanitizers miss non-adjacent overflows; user storage is therefore exact-size and the model compares every buffer with its image after each step"],
     ),
